@@ -266,7 +266,21 @@ pub fn generate(ctx: &mut Ctx) {
                 }
                 if ee.v4 == Res::Missing && ee.v6 == Res::Missing { ee.asn = Res::Inherit; }
                 extra = format!(":{};{};{}", asid, show_ranges(&r4), show_ranges(&r6));
-                (pki::CT_ROA.to_vec(), roa_content(asid, &v4, &v6))
+                // sometimes the eContent itself is off profile while the envelope is fine: the decoder must refuse
+                let content = if rng.chance(1, 10) {
+                    match rng.below(5) {
+                        0 => { let mut x = v4.clone(); x.push((0x0Au128, 8, Some(33))); roa_content(asid, &x, &v6) }
+                        1 => { let mut x = v6.clone(); x.push((0x2001_0db8u128, 32, Some(31))); roa_content(asid, &v4, &x) }
+                        2 => { // the IPv4 family twice
+                            let f = der::seq(&[der::octets(&[0, 1]), der::seq(&[roa_addr(32, 0x0A, 8, None)])]);
+                            der::seq(&[der::uint_u64(asid as u64), der::seq(&[f.clone(), f])]) }
+                        3 => { // explicit version 1
+                            let c = roa_content(asid, &v4, &v6); let (h, n) = der::split_tlv(&c).unwrap();
+                            der::seq(&[der::ctx(0, true, &der::uint_u64(1)), c[h..h + n].to_vec()]) }
+                        _ => { let mut c = roa_content(asid, &v4, &v6); let n = c.len(); c[n - 1] ^= 0x01; if n < 128 { c } else { roa_content(asid, &v4, &v6) } }
+                    }
+                } else { roa_content(asid, &v4, &v6) };
+                (pki::CT_ROA.to_vec(), content)
             }
             "aspa" => {
                 let customer = match rng.below(5) { 0 => 64495u32, 1 => 64512, 2 => 65536, _ => rng.range(64496, 64511) as u32 };
@@ -282,6 +296,14 @@ pub fn generate(ctx: &mut Ctx) {
                 }
                 ee.trim = rng.chance(1, 3);
                 extra = format!(":{}", customer);
+                if rng.chance(1, 10) {
+                    match rng.below(4) {
+                        0 => { provs.reverse(); if provs.len() < 2 { provs.push(customer); } }
+                        1 => { let p = provs[0]; provs.insert(0, p); }
+                        2 => { provs.push(customer); provs.sort(); }
+                        _ => { provs.clear(); }
+                    }
+                }
                 (pki::CT_ASPA.to_vec(), aspa_content(customer, &provs))
             }
             "mft" => {
